@@ -122,6 +122,23 @@ def run(ctx):
                 bad("recovery from a table object that was already used for an earlier construction differs from a fresh copy of the same table "
                     "(flux-based and in-place recovery no longer describe the same quantity)", inp,
                     dict(flux_final=float(im_o["rf"][-1]), flux_final_fresh=float(im_f["rf"][-1]), inplace_final=float(im_o["rfd"][-1]), gap=gap))
+    # ---------------- both recoveries must not depend on WHICH solver produced a level: iterative solver made to report breakdown /
+    # non-convergence on every other step (as it does by itself for large mesh ratios) vs left alone
+    from checks.C04 import Probe
+    tbs2 = rescorr.shipped_gas(stride=8)
+    for kind_, code in (("single", -10), ("single", 1), ("ideal", -10)):
+        t = np.linspace(0, np.sqrt(2.0), 60) ** 2
+        base_c = dict(kind=kind_, table=tbs2, pi=8000.0, pf=800.0, nx=40, times=t) if kind_ == "single" else dict(kind="ideal", pi=8000.0, pf=800.0, nx=40, times=t)
+        im_a = rescorr.run_impl(base_c)
+        with Probe(fail_every=2, fail_info=code):
+            im_b = rescorr.run_impl(base_c)
+        ev += 2
+        inp = dict(kind=kind_, nx=40, nt=60, p_frac_over_p_initial=0.1, solver_flag_injected=code)
+        if "rf" not in im_b:
+            bad("simulation fails when the iterative solver reports failure", inp, im_b.get("error"))
+        elif not np.allclose(im_a["rf"], im_b["rf"], rtol=1e-7, atol=1e-10) or (kind_ == "single" and not np.allclose(im_a["rfd"], im_b["rfd"], rtol=1e-7, atol=1e-10)):
+            bad("recovery depends on whether a level came from the iterative solver or from the direct-solve fallback (a flagged iterate was kept)", inp,
+                dict(flux_final=[float(im_a["rf"][-1]), float(im_b["rf"][-1])], max_diff=float(np.abs(im_a["rf"] - im_b["rf"]).max())))
     # ---------------- ideal reservoir plateau: 1 - p_frac/p_initial
     for ratio in ((0.1, 0.9, 0.99875) if ctx.quick else (0.0125, 0.1, 0.5, 0.9, 0.99, 0.99875)):
         plat = []
